@@ -3,7 +3,9 @@
    call site of the code, each recording an event); "never handed to the C library directly" is a
    fact about the sources and the binary: the inventory regenerated from the AST of every source on
    this run (Bridge_inventory) and the trace equality under a tagging / arena allocator. *)
-From CB Require Import Word HHeap HItems HOps HRef_proofs HRead_proofs Bridge_inventory HHist2_proofs.
+From CB Require Import Word HHeap HItems HOps HHist HRef_proofs HRead_proofs Bridge_inventory HHist_proofs HHist2_proofs HStepInv_proofs HTrace_proofs.
+From Coq Require Import List.
+Import ListNotations.
 From CBGen Require Import Gen_inventory.
 Local Open Scope N_scope.
 
@@ -42,3 +44,94 @@ Theorem C13_describe_readonly : forall fuel a w u w',
   (exists reads, alog w' = reads ++ alog w /\ Forall (fun x => exists b, x = AccR b) reads).
 Proof. exact describe_walk_readonly. Qed.
 Print Assumptions C13_describe_readonly.
+
+(* ---- the allocator protocol over whole API histories (theories/HTrace_proofs.v) ----
+   Vocabulary (HTrace_proofs): for an allocator event e,
+     returned e = the address it hands out        (EvMalloc _ (Some p), EvRealloc _ _ (Some p)  ->  [p]),
+     named e    = the block it takes as argument  (EvFree (Some p), EvRealloc (Some p) _ _      ->  [p]),
+     released e = the block that dies with it     (EvFree (Some p); EvRealloc (Some p) _ (Some _): a granted
+                                                   realloc kills the old address, a refused one does not);
+     returned_in / released_in = the same over a list of events.
+   [trace w] is newest first, so [rev (trace w)] is the run's allocator trace in program order.
+   trace_ok evs: at every position of the trace, the block named by a free / realloc was returned by an
+   EARLIER malloc / realloc and has not been given back since, and no address is returned twice. *)
+
+(* for every allocator oracle, every nesting limit and every history that follows the ownership
+   rules (exactly the hypothesis of C04_history): the run does not fault and its whole allocator
+   trace obeys the protocol - each block is handed to free at most once, only while live, and
+   nothing that did not come from the allocator is ever freed or resized *)
+Theorem C13_history_trace_ok : forall refuse L ops,
+  legal_history refuse L ops s0 own0 world0 ->
+  exists s' outs w', run_hist refuse L ops s0 [] world0 = Ret (s', outs) w' /\
+    forall before e after, rev (trace w') = before ++ e :: after ->
+      (forall p, In p (named e) -> In p (returned_in before) /\ ~ In p (released_in before)) /\
+      (forall p, In p (returned e) -> ~ In p (returned_in before)).
+Proof. exact HTrace_proofs.C13_history_trace_ok. Qed.
+Print Assumptions C13_history_trace_ok.
+
+(* the same with the named predicate; trace_okb is an executable checker that decides it *)
+Theorem C13_history_trace_ok' : forall refuse L ops,
+  legal_history refuse L ops s0 own0 world0 ->
+  exists s' outs w', run_hist refuse L ops s0 [] world0 = Ret (s', outs) w' /\ trace_ok (rev (trace w')).
+Proof. exact HTrace_proofs.C13_history_trace_ok. Qed.
+Theorem C13_checker_reflects : forall evs, trace_okb evs = true <-> trace_ok evs.
+Proof. exact trace_okb_iff. Qed.
+Print Assumptions C13_checker_reflects.
+
+(* consequences in list form: no block is given back twice, no address is handed out twice, only
+   blocks that came from the allocator are given back *)
+Theorem C13_history_released_once : forall refuse L ops,
+  legal_history refuse L ops s0 own0 world0 ->
+  exists s' outs w', run_hist refuse L ops s0 [] world0 = Ret (s', outs) w' /\
+    NoDup (released_in (rev (trace w'))) /\ NoDup (returned_in (rev (trace w'))) /\
+    (forall p, In p (released_in (rev (trace w'))) -> In p (returned_in (rev (trace w')))).
+Proof. exact HTrace_proofs.C13_history_released_once. Qed.
+Print Assumptions C13_history_released_once.
+
+(* the protocol does not depend on the rules: whatever the client does, if the run returns then its
+   trace obeys the protocol and the live cells are exactly the blocks returned and not given back (a
+   call that would free or resize a dead block is a Fault of the model, which stops the run before
+   the event is recorded).  What the rules buy is the absence of faults (C04_history). *)
+Theorem C13_any_run_trace_ok : forall refuse L ops s' outs w',
+  run_hist refuse L ops s0 [] world0 = Ret (s', outs) w' ->
+  trace_ok (rev (trace w')) /\
+  (forall p, heap w' p <> None <-> In p (returned_in (rev (trace w'))) /\ ~ In p (released_in (rev (trace w')))).
+Proof. exact HTrace_proofs.C13_any_run_trace_ok. Qed.
+Print Assumptions C13_any_run_trace_ok.
+
+(* once the client has dropped all of its references (hypotheses of C04_history_no_leak: ownership
+   and no-cycle rules), every address the allocator returned during the run has been given back -
+   freed, or consumed by a granted realloc - exactly once *)
+Theorem C13_history_all_freed : forall refuse L ops s' outs w',
+  rules_history refuse L ops s0 own0 world0 ->
+  run_hist refuse L ops s0 [] world0 = Ret (s', outs) w' ->
+  (forall a, own_hist refuse L ops s0 own0 world0 a = 0) ->
+  trace_ok (rev (trace w')) /\
+  forall p, In p (returned_in (rev (trace w'))) ->
+    count_occ N.eq_dec (released_in (rev (trace w'))) p = 1%nat.
+Proof. exact HTrace_proofs.C13_history_all_freed. Qed.
+Print Assumptions C13_history_all_freed.
+
+(* non-vacuity: an indefinite array that grows 0 -> 1 -> 2 (the block moves), a growth refused by
+   the allocator, a string, a fourth growth, and the release of everything.  The history follows
+   the rules (ex13_rules), so both theorems apply to it; evaluated: *)
+Example C13_example_trace :
+  match run_hist ex13_refuse 8 ex13_ops s0 [] world0 with
+  | Ret (s', outs) w' =>
+      rev (trace w') =
+        [EvMalloc 48 (Some 1); EvMalloc 49 (Some 2); EvRealloc None 8 (Some 3); EvRealloc (Some 3) 16 (Some 4);
+         EvRealloc (Some 4) 32 None; EvMalloc 48 (Some 5); EvMalloc 2 (Some 6); EvRealloc (Some 4) 32 (Some 7);
+         EvFree (Some 2); EvFree (Some 6); EvFree (Some 5); EvFree (Some 7); EvFree (Some 1)] /\
+      trace_okb (rev (trace w')) = true /\
+      returned_in (rev (trace w')) = [1; 2; 3; 4; 5; 6; 7] /\
+      released_in (rev (trace w')) = [3; 4; 2; 6; 5; 7; 1]
+  | Fault _ => False
+  end.
+Proof. vm_compute. repeat split. Qed.
+Example C13_example_applies :
+  (exists s' outs w', run_hist ex13_refuse 8 ex13_ops s0 [] world0 = Ret (s', outs) w' /\ trace_ok (rev (trace w'))) /\
+  (forall s' outs w', run_hist ex13_refuse 8 ex13_ops s0 [] world0 = Ret (s', outs) w' ->
+     forall p, In p (returned_in (rev (trace w'))) -> count_occ N.eq_dec (released_in (rev (trace w'))) p = 1%nat).
+Proof.
+  split; [exact ex13_theorem_applies|]. intros s' outs w' E. exact (proj2 (ex13_all_freed s' outs w' E)).
+Qed.
